@@ -42,6 +42,7 @@ type loopInfo struct {
 
 // fnEnc encodes one function instance (top level or inlined).
 type fnEnc struct {
+	resTypes map[string]types.Type // result types of the call sites recorded for lastresult()
 	vc      *VC
 	fn      *ssa.Function
 	prefix  string
@@ -183,6 +184,9 @@ func (e *fnEnc) analyseCFG() {
 							if site == own || strings.HasPrefix(site, n+"@") {
 								li.writes[hitsKey(site).Name] = true
 							}
+						}
+						if e.contract.ResSites[own] {
+							li.writes["RES!"+mangle(own)] = true
 						}
 					}
 				}
